@@ -289,7 +289,10 @@ fn check_ratio_call(acc: &mut Acc, cfg: &Cfg, prefix: &[Op], op: Op, journal: Op
                     Op::Ra(v, _) | Op::R(v, _) => v,
                     _ => 0.0,
                 };
-                let okp = p.to_bits() == target.to_bits() || p.to_bits() == arg.to_bits() || (p.is_nan() && target.is_nan());
+                // the relative setter behaves as the absolute one called with original * x: the
+                // error reports that product, not the relative factor
+                let _ = arg;
+                let okp = p.to_bits() == target.to_bits() || (p.is_nan() && target.is_nan());
                 if !okp || e.get("original") != Some(orig) || e.get("max_relative_ratio") != Some(m) {
                     viol(acc, cfg, &hist, "reject-wrong-fields", format!("{} -> {}", op.text(), e.text()));
                 }
